@@ -67,3 +67,17 @@ def c07_nanosecond_bounds_truncated(w):
     m = _mech(w)
     return (w.get('kind') == 'statistic_wrong' and m.get('kind') in ('min', 'max') and m.get('family') == 'date'
             and m.get('sub') == 'sub-microsecond part dropped' and m.get('backend') == 'pandas')
+
+
+@classifier
+def c09_date_only_bound_gains_midnight(w):
+    """a date bound written as YYYY-MM-DD is loaded as a datetime and re-serialised with ' 00:00:00'"""
+    m = _mech(w)
+    return w.get('kind') == 'text_changes_on_roundtrip' and m.get('date_only_bound') and m.get('only_midnight_suffix')
+
+
+@classifier
+def c09_infinite_bound_written_as_bare_infinity(w):
+    """an infinite min/max is written by json.dumps as the non-JSON token Infinity / -Infinity"""
+    m = _mech(w)
+    return w.get('kind') == 'not_strict_json' and m.get('problem') == 'non-json-constant' and m.get('bare_infinity')
